@@ -64,6 +64,65 @@ func c17values() map[string][2]string {
 	}
 }
 
+// paramProto returns a fresh pointer of the registered type of a parameter key.
+func paramProto(key string) interface{} {
+	switch key {
+	case "auth/MaxMemoCharacters", "auth/TxSigLimit", "pos/MaxValidators":
+		return new(uint64)
+	case "auth/FeeMultipliers":
+		return new(authTypes.FeeMultipliers)
+	case "gov/daoOwner":
+		return new(sdk.Address)
+	case "gov/acl":
+		return new(govTypes.ACL)
+	case "gov/upgrade":
+		return new(govTypes.Upgrade)
+	case "pos/UnstakingTime", "pos/MaxEvidenceAge", "pos/DowntimeJailDuration":
+		return new(time.Duration)
+	case "pos/StakeDenom":
+		return new(string)
+	case "pos/StakeMinimum", "pos/SignedBlocksWindow":
+		return new(int64)
+	case "pos/ProposerRewardPercentage":
+		return new(int8)
+	case "pos/MinSignedPerWindow", "pos/SlashFractionDoubleSign", "pos/SlashFractionDowntime":
+		return new(sdk.Dec)
+	}
+	return nil
+}
+
+// c17wellFormed decides, with the application codec, whether val decodes into the parameter's type.
+func c17wellFormed(key, val string) (ok bool) {
+	p := paramProto(key)
+	if p == nil {
+		return false
+	}
+	defer func() {
+		if recover() != nil {
+			ok = false
+		}
+	}()
+	return chain.MakeCodec().UnmarshalJSON([]byte(val), p) == nil
+}
+
+func resolvedVal(t chain.TxSpec, before chain.View) string {
+	switch t.Val {
+	case "@same":
+		return before.Params[t.Key]
+	case "@empty":
+		return ""
+	}
+	return t.Val
+}
+
+func c17partial() map[string]string {
+	return map[string]string{
+		"gov/upgrade":         `{"type":"gov/upgrade","value":{"Height":"77","Version":5}}`,
+		"auth/FeeMultipliers": `{"fee_multiplier":[{"key":"send","multiplier":"9"}],"default":"x"}`,
+		"gov/acl":             `{"type":"gov/non_map_acl","value":[{"acl_key":"gov/acl","address":"` + chain.Addr(gStranger).String() + `"},{"acl_key":5}]}`,
+	}
+}
+
 func c17alphabet(full bool) []Choice {
 	var cs []Choice
 	vals := c17values()
@@ -74,7 +133,7 @@ func c17alphabet(full bool) []Choice {
 		for _, s := range senders {
 			kinds := []string{"new"}
 			if full {
-				kinds = []string{"new", "same", "malformed", "wrongtype", "empty"}
+				kinds = []string{"new", "same", "malformed", "wrongtype", "empty", "partial"}
 			}
 			for _, kind := range kinds {
 				v := vals[k][0]
@@ -87,6 +146,13 @@ func c17alphabet(full bool) []Choice {
 					v = vals[k][1]
 				case "empty":
 					v = "@empty"
+				case "partial":
+					// a struct value whose first field is well formed and a later field has the wrong type
+					pv, ok := c17partial()[k]
+					if !ok {
+						continue
+					}
+					v = pv
 				}
 				cs = append(cs, txB(fmt.Sprintf("change(%s,by=k%d,%s)", k, s, kind), chain.TxSpec{Msg: "change_param", From: s, Key: k, Val: v}))
 			}
@@ -187,6 +253,10 @@ func RunGovHistory(cfg chain.Config, prelude, blocks []chain.Block) HistResult {
 				case !ok:
 					report(fmt.Sprintf("%s|changed-but-result-not-ok", t.Msg), fmt.Sprintf("%s at height %d changed %s but returned code %d", t, dd.Height+1, k, tr.Code))
 				}
+			}
+			// a value that does not decode into the parameter's type must change nothing, whoever sends it
+			if t.Msg == "change_param" && len(changed) > 0 && !c17wellFormed(t.Key, resolvedVal(t, before)) {
+				report("change_param|malformed-value-changed-state|by-"+role, fmt.Sprintf("%s at height %d: the value does not decode into the type of %s, yet stored parameters changed: %v (%q -> %q)", t, dd.Height+1, t.Key, changed, before.Params[t.Key], after.Params[t.Key]))
 			}
 			if target != "" && !isOwner && ok {
 				report(fmt.Sprintf("%s|non-owner-accepted", t.Msg), fmt.Sprintf("%s at height %d by a non-owner returned code 0", t, dd.Height+1))
